@@ -24,7 +24,7 @@ def reader_side(ctx):
         if rng.random() < 0.3:      # make some nodes underivable
             t2 = gen.rand_tree(rng, lang, rng.randint(2, 4), full_tokens=True, plain_words=True)
             t = Tree.make_binary(rng.choice([t.cat, t2.cat]), t, t2, 'fa', '>', True)
-        fmts = ['auto', 'xml', 'ptb'] if lang == 'en' else ['jigg_xml']
+        fmts = ['auto', 'xml', 'ptb'] if lang == 'en' else ['jigg_xml', 'auto']
         for fmt in fmts:
             txt = to_string([[ScoredTree(t, 0.0)]], format=fmt)
             suffix = {'auto': '.auto', 'xml': '.xml', 'ptb': '.ptb', 'jigg_xml': '.jigg.xml'}[fmt]
